@@ -343,6 +343,23 @@ impl SubCheck for C20 {
                     if !f.decls.iter().any(|d| d.name == want_card) {
                         out.push(Violation::new("go.uppercase_acronyms/ignored/type-name".to_string(), format!("go: expected a type named {want_card}; found {:?}", f.decls.iter().map(|d| &d.name).collect::<Vec<_>>())));
                     }
+                    // every configured acronym is applied, also when one name contains several of them
+                    if let Some(d) = f.decls.iter().find(|d| d.name == want_card) {
+                        if let Some(fl) = d.fields.iter().find(|x| x.key == "http_url") {
+                            let want_field = format!("{}{}", if acr("http") { "HTTP" } else { "Http" }, if acr("url") { "URL" } else { "Url" });
+                            if fl.ident != want_field {
+                                out.push(Violation::new("go.uppercase_acronyms/ignored/field-with-two-acronyms".to_string(), format!("go: uppercase_acronyms = {:?}: field `http_url` should be named {want_field}, found {}", c.go_acronyms, fl.ident)));
+                            }
+                        }
+                    }
+                    if let Some(d) = f.decls.iter().find(|d| d.name == "Widget") {
+                        if let Some(fl) = d.fields.iter().find(|x| x.key == "user_id") {
+                            let want_field = if acr("id") { "UserID" } else { "UserId" };
+                            if fl.ident != want_field {
+                                out.push(Violation::new("go.uppercase_acronyms/ignored/field-name".to_string(), format!("go: uppercase_acronyms = {:?}: field `user_id` should be named {want_field}, found {}", c.go_acronyms, fl.ident)));
+                            }
+                        }
+                    }
                     if let Some(d) = f.decls.iter().find(|d| d.name == "Widget") {
                         if let Some(fl) = d.fields.iter().find(|x| x.key == "maybe") {
                             let ptr = matches!(fl.ty, Some(OTy::Ptr(_)));
